@@ -1,8 +1,8 @@
 #!/bin/sh
-# Re-evaluate every stored seeded change against /repo's CURRENT HEAD (after later fix: commits), 4 at a time.
+# Re-evaluate every stored seeded change against /repo's CURRENT HEAD (after later fix: commits).
 # usage: harness/seed_reeval_all.sh [--no-suite]     (scratch worktrees under /tmp/seed/reeval_N are created and removed)
 cd /verif
-N=4
+N=1   # sequential: parallel runs would race on Generated/Tables.lean and the driver binary
 for i in $(seq 1 $N); do git -C /repo worktree remove --force /tmp/seed/reeval_$i 2>/dev/null; git -C /repo worktree add -q --detach /tmp/seed/reeval_$i HEAD; done
 ls seeded | grep -v SUMMARY | awk -v n=$N '{print $0, (NR % n) + 1}' > .work/reeval.list
 for i in $(seq 1 $N); do
